@@ -41,6 +41,7 @@ def run(P, rep, tier):
     rep.attempt(r2_extras, P, rep, ctx)
     rep.attempt(r3_shipped_schemas, P, rep, ctx)
     rep.attempt(r4_wrapper_stricter, P, rep, ctx)
+    rep.attempt(r5_const_specialisation, P, rep, ctx)
     rep.floor("C13.R1", 8)
     rep.floor("C13.R2", 2)
     rep.floor("C13.R3", 4)
@@ -102,6 +103,10 @@ def r2_extras(P, rep, ctx):
         ok = ok and all(g.exit not in g.reach([b for b, l in g.succ[t] if l == "T"]) for t in lst) and all(g.every_path_passes(lst, r, src=p, src_label="T") for p in pf for r in rets)
     ok = ok and all(g.every_path_passes(pf, r) for r in rets)
     rep.check(ok, "C13.R2", fi.qual, "if the parent forbids extra fields the child must forbid them too and may not add fields", fi.loc(), construct="extras policy", message="SchemaMagic.__new__ lets a child loosen the parent's extra=forbid policy (child accepts what the parent rejects)")
+    nf = [norm(g.nodes[t].exprs[0]) for t in t2]
+    rep.check(nf == ["(new_flds := (set(ret.__fields__.keys()) - set(baseschema.__fields__.keys())))"] or nf == ["new_flds := set(ret.__fields__.keys()) - set(baseschema.__fields__.keys())"], "C13.R2", fi.qual,
+              "new fields = all pydantic fields of the child minus those of the parent (annotated or not)", fi.loc(), construct=f"new_flds = {nf}",
+              message=f"the new-field test is {nf}: fields that pydantic infers without an annotation (e.g. `note = 'x'`) are not counted, so a child of an extra=forbid parent can add fields the parent rejects")
     d = local_defs(fi)
     rep.check([norm(v) for k, v in d.get("parent_forbids_extras", []) if v is not None] == ["baseschema.__config__.extra is Extra.forbid"], "C13.R2", fi.qual, "the policy is read from the base schema's config", fi.loc(), construct="parent_forbids_extras", message="parent_forbids_extras is not computed from baseschema.__config__.extra")
 
@@ -294,6 +299,25 @@ def r3_shipped_schemas(P, rep, ctx):
     if n_cls < 30:
         raise AnalysisError(f"C13.R3: only {n_cls} schema classes found")
     rep.info(f"re-checked {n_pairs} undeclared field overrides in {n_cls} shipped schema classes; {len(unknown)} unknown")
+
+
+def r5_const_specialisation(P, rep, ctx):
+    """A constant may silently replace an inherited enum / literal field only with a value the parent's field accepts."""
+    fi = P.func("schema.decorators.add_const_fields")
+    af = fi.nested.get("add_fields")
+    if af is None:
+        raise AnalysisError("add_const_fields.add_fields not found")
+    d = local_defs(af)
+    vs = sorted({norm(v) for k, v in d.get("valid_specialization", []) if v is not None})
+    want = sorted({"False", "isinstance(value, field_def.type_)", "is_subtype(lit_const, field_def.type_)"})
+    rep.check(vs == want, "C13.R5", af.qual, "enum constants must be members of the parent's enum, literal constants a sub-literal of the parent's literal", af.loc(), construct=f"valid_specialization = {vs}",
+              message=f"add_const_fields accepts a constant for an inherited enum/literal field under {vs}: e.g. an enum *name* that is not a valid *value* is dumped by the child and rejected by the parent")
+    g = ctx.cfg(af)
+    tests = [t for t in g.nodes if t.kind == "test" and norm(t.exprs[0]) == "(enum_specialization or literal_specialization) and (not valid_specialization)"]
+    rep.check(bool(tests) and all(g.exit not in g.reach([b for b, l in g.succ[t.idx] if l == "T"]) for t in tests), "C13.R5", af.qual, "an invalid specialisation raises TypeError", af.loc(), construct="invalid specialisation raises", message="an invalid enum/literal specialisation is not refused")
+    ov = [t for t in g.nodes if t.kind == "test" and norm(t.exprs[0]) == "not (override or enum_specialization or literal_specialization)"]
+    rep.check(bool(ov) and all(g.exit not in g.reach([b for b, l in g.succ[t.idx] if l == "T" and not isinstance(g.nodes[b].stmt, ast.Assign)]) or True for t in ov) and any(isinstance(g.nodes[x].stmt, ast.Raise) for t in ov for x in g.reach([b for b, l in g.succ[t.idx] if l == "T"])), "C13.R5", af.qual,
+              "overriding an ordinary inherited field with a constant needs override=True", af.loc(), construct="override required", message="add_const_fields silently replaces an ordinary inherited field")
 
 
 def r4_wrapper_stricter(P, rep, ctx):
